@@ -30,6 +30,7 @@ def run(check: Check, repo: Repo, tier: str) -> None:
     S.schema_errors_first(check, repo)
     S.validation_cache(check, repo)
     S.reserved_names(check, repo)
+    S.cycle_edge_by_type(check, repo)
     S.unvalidated_elements(check, repo)
     S.deprecation_direction(check, repo)
     from rules import sdl_rules as D
